@@ -373,10 +373,266 @@ def block_as_python(source: str, designator: str, start: str, cfg: SinkCfg, glob
 
 
 # ---------------------------------------------------------------------- the assembly of the method and of its API wrappers
+#
+# Facts read off the source text (no translation of values): which designated range covers each top-level statement of the core method,
+# and what each API method hands back as a term over the call of the core (`Rbacx.PyAsm.Api`, lean/Rbacx/Model/PyAssembly.lean):
+#   `self.<core>(a, b, c, d)` with bare names → `core [a, b, c, d]`; `self.<other API method>(…)` likewise → `method`; `await E` → `await`;
+#   `asyncio.run(E)` → `run`; a parameterless local `def f(): return E` called as `f()` → E, submitted to a `ThreadPoolExecutor` bound by
+#   `with … as ex` (`fut = ex.submit(f)` … `fut.result()`) → `thread E`; `E.attr` → `attr`; `x = E` for a name assigned once → substituted
+#   where `x` is used; `if T: …; return A` followed by the rest → `ite T A <rest>` (T may not contain a call of the core);
+#   statements that contain no call of the core / an API method and no return/raise (the probe for a running loop) → skipped, the names
+#   they bind become `other`; ANYTHING else → `other <text>`, which no obligation accepts.
 
-def assembly(source: str, cls: str, core: str, ranges: list, wrappers: list[str], holders: list[str]) -> dict:
-    raise Unsupported("assembly: not implemented yet")
+_MUTATORS = ("update", "pop", "clear", "setdefault", "popitem", "append", "extend", "insert", "remove", "sort", "reverse")
+
+
+def _class(tree: ast.Module, cls: str) -> ast.ClassDef:
+    hits = [n for n in tree.body if isinstance(n, ast.ClassDef) and n.name == cls]
+    if len(hits) != 1:
+        raise Unsupported(f"class {cls} not found")
+    return hits[0]
+
+
+def _short(n: ast.AST, k: int = 70) -> str:
+    return " ".join(ast.unparse(n).split())[:k]
+
+
+def cover(fn, ranges: list) -> tuple[list[str], dict[int, str]]:
+    """one entry per top-level statement of the method body (a docstring left out): the label of the designated range that covers it,
+    `OTHER: <text>` for a statement in no range, `OVERLAP: …` for one in several; and {statement index: entry}"""
+    body = list(fn.body)
+    texts = [ast.unparse(st) for st in body]
+    spans: list[tuple[str, int, int]] = []
+    for label, first, last in ranges:
+        a = [i for i, t in enumerate(texts) if t.startswith(first)]
+        if len(a) != 1:
+            raise Unsupported(f"{fn.name}: {len(a)} top-level statements start with {first!r} (range {label}; need exactly one)")
+        if last is None:
+            b = a
+        elif last == "END":
+            b = [len(body) - 1]
+        else:
+            b = [i for i, t in enumerate(texts) if t.startswith(last)]
+            if len(b) != 1 or b[0] < a[0]:
+                raise Unsupported(f"{fn.name}: {len(b)} top-level statements start with {last!r} (range {label}; need exactly one, after the first)")
+        spans.append((label, a[0], b[0]))
+    out, at = [], {}
+    for i, st in enumerate(body):
+        if i == 0 and isinstance(st, ast.Expr) and isinstance(st.value, ast.Constant) and isinstance(st.value.value, str):
+            continue
+        ls = [label for label, a, b in spans if a <= i <= b]
+        entry = ls[0] if len(ls) == 1 else ("OTHER: " + _short(st) if not ls else "OVERLAP: " + "+".join(ls))
+        out.append(entry)
+        at[i] = entry
+    return out, at
+
+
+class _ApiTr:
+    """a wrapper method's body as a term of `Rbacx.PyAsm.Api` (what the method hands back, over the call of the core)"""
+
+    def __init__(self, tree: ast.Module, fn, core: str, wrappers: list[str]):
+        a = fn.args
+        if a.vararg or a.kwarg or a.posonlyargs or a.kwonlyargs or not a.args or a.args[0].arg != "self":
+            raise Unsupported(f"signature of {fn.name}")
+        self.tree, self.fn, self.core, self.wrappers = tree, fn, core, list(wrappers)
+        self.params = [x.arg for x in a.args[1:]]
+        self.env: dict[str, tuple] = {}
+        self.stores: dict[str, int] = {}
+        for n in ast.walk(fn):
+            if isinstance(n, ast.Name) and isinstance(n.ctx, ast.Store):
+                self.stores[n.id] = self.stores.get(n.id, 0) + 1
+            if isinstance(n, (ast.FunctionDef, ast.AsyncFunctionDef)) and n is not fn:
+                self.stores[n.name] = self.stores.get(n.name, 0) + 1
+
+    def is_site(self, n: ast.AST) -> bool:
+        return isinstance(n, ast.Call) and pa._is_self_attr(n.func) and n.func.attr in [self.core] + self.wrappers
+
+    def sites(self, n: ast.AST) -> int:
+        return sum(1 for x in ast.walk(n) if self.is_site(x))
+
+    def _imported_from(self, module: str, name: str) -> bool:
+        return any(isinstance(n, ast.ImportFrom) and n.module == module and any(a.name == name and a.asname is None for a in n.names)
+                   for n in self.tree.body) and name not in self.stores and name not in self.params
+
+    def _module(self, name: str) -> bool:
+        return any(isinstance(n, ast.Import) and any(a.name == name and a.asname is None for a in n.names) for n in self.tree.body) \
+            and name not in self.stores and name not in self.params
+
+    @staticmethod
+    def other(text: str) -> str:
+        return f"(Rbacx.PyAsm.Api.other {lean_str(text)})"
+
+    def names(self, call: ast.Call) -> str | None:
+        if call.keywords or not all(isinstance(x, ast.Name) for x in call.args):
+            return None
+        return "[" + ", ".join(lean_str(x.id) for x in call.args) + "]"
+
+    def AE(self, e: ast.expr | None) -> str:
+        if e is None:
+            return self.other("return None")
+        if isinstance(e, ast.Name) and self.env.get(e.id, ("",))[0] == "api":
+            return self.env[e.id][1]
+        if isinstance(e, ast.Await):
+            return f"(Rbacx.PyAsm.Api.await {self.AE(e.value)})"
+        if isinstance(e, ast.Call):
+            f = e.func
+            if isinstance(f, ast.Attribute) and f.attr == "run" and isinstance(f.value, ast.Name) and f.value.id == "asyncio" and self._module("asyncio") \
+                    and len(e.args) == 1 and not e.keywords:
+                return f"(Rbacx.PyAsm.Api.run {self.AE(e.args[0])})"
+            if self.is_site(e):
+                ns = self.names(e)
+                if ns is None:
+                    return self.other(_short(e))
+                return f"(Rbacx.PyAsm.Api.core {ns})" if f.attr == self.core else f"(Rbacx.PyAsm.Api.method {lean_str(f.attr)} {ns})"
+            if isinstance(f, ast.Name) and self.env.get(f.id, ("",))[0] == "localfn" and not e.args and not e.keywords:
+                return self.env[f.id][1]
+            if isinstance(f, ast.Attribute) and f.attr == "result" and isinstance(f.value, ast.Name) and self.env.get(f.value.id, ("",))[0] == "future" \
+                    and not e.args and not e.keywords:
+                return f"(Rbacx.PyAsm.Api.thread {self.env[f.value.id][1]})"
+        if isinstance(e, ast.Attribute) and isinstance(e.ctx, ast.Load) and not pa._is_self_attr(e):
+            return f"(Rbacx.PyAsm.Api.attr {self.AE(e.value)} {lean_str(e.attr)})"
+        return self.other(_short(e))
+
+    def neutral(self, st: ast.stmt) -> bool:
+        return self.sites(st) == 0 and not any(isinstance(n, (ast.Return, ast.Raise, ast.Yield, ast.YieldFrom)) for n in ast.walk(st))
+
+    def taint(self, st: ast.stmt) -> None:
+        for v in _stores([st]):
+            self.env[v] = ("api", self.other(f"{v} is bound inside `{_short(st, 40)}`"))
+
+    def AS(self, stmts: list[ast.stmt]) -> str:
+        if not stmts:
+            return self.other("falls off the end")
+        st, rest = stmts[0], stmts[1:]
+        if isinstance(st, ast.Pass) or (isinstance(st, ast.Expr) and isinstance(st.value, ast.Constant)):
+            return self.AS(rest)
+        if isinstance(st, ast.Return):
+            return self.AE(st.value)
+        if isinstance(st, ast.FunctionDef) and not st.args.args and not st.args.kwonlyargs and not st.args.vararg and not st.args.kwarg \
+                and not st.decorator_list and self.stores.get(st.name) == 1:
+            body = [b for b in st.body if not (isinstance(b, ast.Expr) and isinstance(b.value, ast.Constant))]
+            if len(body) == 1 and isinstance(body[0], ast.Return):
+                self.env[st.name] = ("localfn", self.AE(body[0].value))
+                return self.AS(rest)
+            return self.other(_short(st))
+        if isinstance(st, (ast.Assign, ast.AnnAssign)):
+            tgt = st.targets[0] if isinstance(st, ast.Assign) else st.target
+            if (isinstance(st, ast.Assign) and len(st.targets) != 1) or not isinstance(tgt, ast.Name) or st.value is None:
+                return self.other(_short(st)) if self.sites(st) else self.AS(rest)
+            x, v = tgt.id, st.value
+            if self.stores.get(x) != 1 or x in self.params:
+                self.env[x] = ("api", self.other(f"{x} is assigned {self.stores.get(x)} times"))
+                return self.other(_short(st)) if self.sites(st) else self.AS(rest)
+            if isinstance(v, ast.Call) and isinstance(v.func, ast.Attribute) and v.func.attr == "submit" and isinstance(v.func.value, ast.Name) \
+                    and self.env.get(v.func.value.id, ("",))[0] == "executor" and len(v.args) == 1 and not v.keywords \
+                    and isinstance(v.args[0], ast.Name) and self.env.get(v.args[0].id, ("",))[0] == "localfn":
+                self.env[x] = ("future", self.env[v.args[0].id][1])
+            else:
+                self.env[x] = ("api", self.AE(v))
+            return self.AS(rest)
+        if isinstance(st, ast.With):
+            it = st.items[0] if len(st.items) == 1 else None
+            if it is not None and isinstance(it.context_expr, ast.Call) and isinstance(it.context_expr.func, ast.Name) \
+                    and it.context_expr.func.id == "ThreadPoolExecutor" and self._imported_from("concurrent.futures", "ThreadPoolExecutor") \
+                    and isinstance(it.optional_vars, ast.Name) and self.stores.get(it.optional_vars.id) == 1 and self.sites(it.context_expr) == 0:
+                self.env[it.optional_vars.id] = ("executor",)
+                return self.AS(list(st.body) + rest)
+            return self.other(_short(st))
+        if isinstance(st, ast.If):
+            if self.sites(st.test) == 0 and st.body and isinstance(st.body[-1], ast.Return):
+                saved = dict(self.env)
+                a = self.AS(list(st.body))
+                self.env = dict(saved)
+                b = self.AS(list(st.orelse) + rest)
+                return f"(Rbacx.PyAsm.Api.ite {lean_str(_short(st.test, 50))} {a} {b})"
+            if self.neutral(st):
+                self.taint(st)
+                return self.AS(rest)
+            return self.other(_short(st))
+        if isinstance(st, (ast.Try, ast.Expr)) and self.neutral(st):
+            self.taint(st)
+            return self.AS(rest)
+        return self.other(_short(st))
+
+
+def assembly(source: str, cls: str, core: str, ranges: list, wrappers: list[str], holders: list[str], tail_label: str, watch: list[str]) -> dict:
+    """facts about the method `cls.core` and the API methods around it, read off the source text:
+    * "sequence": the top-level statements of the core as the designated ranges that cover them, consecutive repeats merged;
+    * "returns_outside": the number of `return` statements of the core outside the range `tail_label`;
+    * "sink_loads_outside": every place of the class outside that range that READS one of the sink objects `holders` (`self.metrics`…);
+    * "input_sites": for each variable of `watch` (what the tail reads), the ranges in which it is assigned or mutated in place;
+    * "wrappers": per API method its parameters, whether it is `async`, its body as a `Rbacx.PyAsm.Api` term (Lean text) and the number of
+      call sites of the core / of the other API methods in its source text."""
+    tree = ast.parse(source)
+    c = _class(tree, cls)
+    fn = pa.method(tree, f"{cls}.{core}")
+    per_stmt, at = cover(fn, ranges)
+    seq: list[str] = []
+    for e in per_stmt:
+        if not seq or seq[-1] != e:
+            seq.append(e)
+    tail_idx = {i for i, e in at.items() if e == tail_label}
+    returns_outside = 0
+    for i, st in enumerate(fn.body):
+        if i not in tail_idx:
+            returns_outside += sum(1 for n in ast.walk(st) if isinstance(n, ast.Return))
+    attrs = [h.split(".", 1)[1] for h in holders if h.startswith("self.")]
+    loads: list[str] = []
+
+    def scan(where: str, node: ast.AST) -> None:
+        for n in ast.walk(node):
+            if pa._is_self_attr(n) and n.attr in attrs and isinstance(n.ctx, ast.Load):
+                loads.append(f"{where}: {_short(n)}")
+            if isinstance(n, ast.Call) and isinstance(n.func, ast.Name) and n.func.id in ("getattr", "hasattr") and len(n.args) >= 2 \
+                    and isinstance(n.args[0], ast.Name) and n.args[0].id == "self" \
+                    and (not isinstance(n.args[1], ast.Constant) or n.args[1].value in attrs):
+                loads.append(f"{where}: {_short(n)}")
+    for m in c.body:
+        if m is fn:
+            for i, st in enumerate(fn.body):
+                if i not in tail_idx:
+                    scan(f"{fn.name}[{at.get(i, 'docstring')}]", st)
+        else:
+            scan(getattr(m, "name", type(m).__name__), m)
+    sites: dict[str, list[str]] = {v: [] for v in watch}
+    for i, st in enumerate(fn.body):
+        for n in ast.walk(st):
+            hit = None
+            if isinstance(n, ast.Name) and isinstance(n.ctx, (ast.Store, ast.Del)):
+                hit = n.id
+            elif isinstance(n, (ast.Subscript, ast.Attribute)) and isinstance(n.ctx, (ast.Store, ast.Del)) and isinstance(n.value, ast.Name):
+                hit = n.value.id
+            elif isinstance(n, ast.Call) and isinstance(n.func, ast.Attribute) and n.func.attr in _MUTATORS and isinstance(n.func.value, ast.Name):
+                hit = n.func.value.id
+            if hit in sites and at.get(i, "docstring") not in sites[hit]:
+                sites[hit].append(at.get(i, "docstring"))
+    ws = []
+    for w in wrappers:
+        wf = pa.method(tree, f"{cls}.{w}")
+        tr = _ApiTr(tree, wf, core, wrappers)
+        ws.append({"name": w, "params": tr.params, "async": isinstance(wf, ast.AsyncFunctionDef), "body": tr.AS(list(wf.body)), "sites": tr.sites(wf)})
+    return {"sequence": seq, "per_statement": per_stmt, "returns_outside": returns_outside, "sink_loads_outside": loads,
+            "input_sites": [[v, sites[v]] for v in watch], "wrappers": ws}
 
 
 def render_assembly(a: dict) -> str:
-    return f"-- assembly not extracted: {a.get('failed')}\n" if "failed" in a else ""
+    if "failed" in a:
+        return f"-- assembly not extracted: {a['failed']}\n"
+
+    def strs(xs) -> str:
+        return "[" + ", ".join(lean_str(x) for x in xs) + "]"
+    ws = ",\n   ".join(f"⟨{lean_str(w['name'])}, {strs(w['params'])}, {'true' if w['async'] else 'false'},\n     {w['body']}, {w['sites']}⟩" for w in a["wrappers"])
+    return ("/-- the top-level statements of the core method as the designated ranges that cover them, in order (`OTHER: …` = a statement in no range) -/\n"
+            f"def core_sequence : List String := {strs(a['sequence'])}\n"
+            "/-- `return` statements of the core outside the sink block -/\n"
+            f"def core_returns_outside : Nat := {a['returns_outside']}\n"
+            "/-- places of the class outside the sink block that read a sink object -/\n"
+            f"def sink_loads_outside : List String := {strs(a['sink_loads_outside'])}\n"
+            "/-- per variable the sink block reads: the ranges that assign it or mutate it in place -/\n"
+            "def core_input_sites : List (String × List String) := ["
+            + ", ".join(f"({lean_str(v)}, {strs(ls)})" for v, ls in a["input_sites"]) + "]\n"
+            "/-- the API methods: name, parameters, async?, what the method hands back as a term over the call of the core, number of call sites of\n"
+            "    the core / of API methods in its source text -/\n"
+            f"def api_wrappers : List Rbacx.PyAsm.Wrapper :=\n  [{ws}]\n")
+
+
